@@ -26,7 +26,7 @@ pub fn check_snapshot_consistency(snapshot: &Snapshot<u64>) -> Check {
         ensure!(store.contains_key(id), "C05", "C05/charge-without-entry", "a weight is charged under id {} for key {} but the store holds no such entry: the capacity can never be released (store: {:?})", id, key, store);
     }
     ensure!(sum == snapshot.weight_used as i128, "C05", "C05/sum-mismatch", "total weight used {} != sum of charged weights {}", snapshot.weight_used, sum);
-    ensure!(snapshot.weight_used >= 0 && snapshot.weight_used <= snapshot.max_weight, "C01", "C01/quiescent/out-of-bounds", "total weight used {} outside [0, {}] at quiescence", snapshot.weight_used, snapshot.max_weight);
+    ensure!(snapshot.weight_used >= 0 && snapshot.weight_used <= snapshot.max_weight, "C01", "C01/conc-quiescent/out-of-bounds", "total weight used {} outside [0, {}] at quiescence", snapshot.weight_used, snapshot.max_weight);
     Ok(())
 }
 
@@ -281,6 +281,8 @@ pub struct ConcStats {
     pub unawaited_same_key: bool,
     pub read_between_delete_and_ack: bool,
     pub guard_held_during_delete: bool,
+    pub eviction_loop_delayed: bool,
+    pub swept_during_run: bool,
 }
 
 pub fn conc_stats(case: &ConcCase, history: &History) -> ConcStats {
@@ -316,6 +318,8 @@ pub fn conc_stats(case: &ConcCase, history: &History) -> ConcStats {
     stats.handovers = (history.final_stats.get("access_added").copied().unwrap_or(0) + history.final_stats.get("access_dropped").copied().unwrap_or(0)) / buf.max(1);
     stats.drops = history.final_stats.get("access_dropped").copied().unwrap_or(0);
     stats.sweeps_during_run = !history.clock_log.is_empty();
+    stats.eviction_loop_delayed = history.site_hits.get(Site::CreateSpaceLoop as usize).copied().unwrap_or(0) > 0;
+    stats.swept_during_run = history.site_hits.get(Site::SweeperInRetain as usize).copied().unwrap_or(0) > 0;
     for write in writes.iter().filter(|write| write.kind == "delete" && !write.err && write.seen_done > 0) {
         for rec in &history.recs {
             match &rec.outcome {
@@ -346,6 +350,9 @@ pub enum ConcProfile {
     /// one deleter cycling put / unawaited delete / immediate reads on a few keys, readers and guard holders on the same
     /// shard, command worker slowed down: the window between delete() returning and its acknowledgement is wide
     DeleteWindow,
+    /// small cache full of short-lived TTL keys, heavy incoming puts that need several evictions, the admission loop
+    /// slowed down while a clock thread makes the sweeper collect keys at the same time
+    EvictVsSweep,
 }
 
 fn cop_strategy(profile: ConcProfile, max_key: u8) -> BoxedStrategy<COp> {
@@ -363,7 +370,7 @@ fn cop_strategy(profile: ConcProfile, max_key: u8) -> BoxedStrategy<COp> {
         ConcProfile::Shutdown => prop_oneof![6 => put, 3 => upsert, 3 => delete, 5 => read, 1 => Just(COp::AwaitAll), 1 => Just(COp::Shutdown)].boxed(),
         ConcProfile::Reads => prop_oneof![1 => put, 30 => read, 1 => hold].boxed(),
         ConcProfile::Deadlock => prop_oneof![5 => put, 6 => upsert, 3 => delete, 6 => read, 2 => hold, 1 => Just(COp::AwaitAll)].boxed(),
-        ConcProfile::Bursts | ConcProfile::DeleteWindow => prop_oneof![6 => put, 2 => upsert, 4 => delete, 1 => read].boxed(),
+        ConcProfile::Bursts | ConcProfile::DeleteWindow | ConcProfile::EvictVsSweep => prop_oneof![6 => put, 2 => upsert, 4 => delete, 1 => read].boxed(),
     }
 }
 
@@ -404,8 +411,31 @@ fn delete_window_strategy(thorough: bool) -> BoxedStrategy<ConcCase> {
     }).boxed()
 }
 
+fn evict_vs_sweep_strategy(thorough: bool) -> BoxedStrategy<ConcCase> {
+    let key = 0u8..10;
+    let ttl = prop_oneof![1 => Just(None), 3 => (100u32..=1500).prop_map(|m| Some(TtlSel::Millis(m))), 2 => (0u32..=2).prop_map(|s| Some(TtlSel::Secs(s)))];
+    let op = prop_oneof![
+        8 => (key.clone(), 0u8..=3, ttl.clone(), any::<bool>()).prop_map(|(k, extra, ttl, wait)| COp::Put { k, extra, explicit: true, ttl, wait }),
+        5 => (key.clone(), 25u8..=50, ttl, any::<bool>()).prop_map(|(k, extra, ttl, wait)| COp::Put { k, extra, explicit: true, ttl, wait }),
+        2 => (key.clone(), any::<bool>()).prop_map(|(k, wait)| COp::Delete { k, wait }),
+        2 => (key.clone(), prop_oneof![Just(TtlReq::Keep), (100u32..=1500).prop_map(|m| TtlReq::Set(TtlSel::Millis(m)))]).prop_map(|(k, ttl)| COp::Upsert { k, down: 0, ttl, wait: true }),
+        3 => (read_kind_strategy(), prop::collection::vec(key.clone(), 1..=3)).prop_map(|(kind, keys)| COp::Read { kind, keys }),
+        1 => Just(COp::AwaitAll),
+    ];
+    let threads = prop::collection::vec(prop::collection::vec(op, 10..=(if thorough { 80 } else { 40 })), 2..=4);
+    let delay = prop_oneof![(50u16..600).prop_map(Delay::SleepUs), (1u8..4).prop_map(Delay::Yield)];
+    let extra_site = prop_oneof![Just(Site::SweeperInRetain as u8), Just(Site::SweeperBeforeRetain as u8), Just(Site::CacheWeightDeleteAfterRemove as u8), Just(Site::CacheWeightDeleteInLock as u8), Just(Site::MaybeAddAfterSpaceCheck as u8), Just(Site::CacheWeightAddAfterInsert as u8), Just(Site::CacheWeightUpdateInEntry as u8)];
+    let injection = ((120u8..=255, (100u16..800).prop_map(Delay::SleepUs)), prop::collection::vec((extra_site, 30u8..=255, delay), 0..=3), any::<u64>())
+        .prop_map(|((probability, loop_delay), mut sites, seed)| { sites.push((Site::CreateSpaceLoop as u8, probability, loop_delay)); Injection { sites, seed: seed | 1 } });
+    let cfg = (prop_oneof![Just(60i64), Just(80), Just(100), Just(150)], prop_oneof![Just(1usize), Just(4)], prop_oneof![Just(HashMode::Identity), Just(HashMode::Constant)], prop_oneof![Just(100u64), Just(300)])
+        .prop_map(|(max_weight, cmd_buf, hash, tick_us)| Cfg { counters: 1000, capacity: 16, max_weight, shards: 2, cmd_buf, pool: 1, buf: 4, tick_us, hash, weight_mode: WeightMode::Table(vec![8, 11, 14, 17, 20]), start_ns: 0 });
+    let clock = prop::collection::vec((50u16..800, 200u32..1600).prop_map(|(pause_us, advance_ms)| ClockStep { pause_us, advance_ms }), 6..=(if thorough { 40 } else { 20 }));
+    (cfg, threads, injection, clock).prop_map(|(cfg, threads, injection, clock)| ConcCase { cfg, threads, injection, clock, monitor: true, consumer: ConsumerMode::Free }).boxed()
+}
+
 pub fn conc_case_strategy(profile: ConcProfile, thorough: bool) -> BoxedStrategy<ConcCase> {
     if profile == ConcProfile::DeleteWindow { return delete_window_strategy(thorough); }
+    if profile == ConcProfile::EvictVsSweep { return evict_vs_sweep_strategy(thorough); }
     let (max_threads, max_ops) = match profile {
         ConcProfile::Deadlock => (if thorough { 12 } else { 8 }, 40),
         ConcProfile::Reads => (if thorough { 16 } else { 8 }, if thorough { 400 } else { 150 }),
@@ -478,6 +508,7 @@ pub fn conc_case_result(case: &ConcCase, property: &str, repeats: u32, stall_win
             ("with_injected_delay", stats.delays > 0), ("two_sites_delayed", stats.distinct_sites_delayed >= 2), ("send_blocked_on_full_queue", stats.queue_full_sends),
             ("commands_in_flight_from_two_threads", stats.concurrent_in_flight), ("with_shutting_down_ack", stats.shutting_down_acks > 0), ("with_buffer_handover", stats.handovers > 0),
             ("with_dropped_buffer", stats.drops > 0), ("with_clock_thread", stats.sweeps_during_run), ("with_space_rejection", stats.evicted_or_rejected), ("unawaited_same_key_writes", stats.unawaited_same_key),
+            ("eviction_loop_ran", stats.eviction_loop_delayed), ("sweeper_collected_during_run", stats.swept_during_run),
             ("read_between_delete_return_and_ack", stats.read_between_delete_and_ack), ("guard_held_while_delete_called", stats.guard_held_during_delete),
         ] {
             let slot = classes.entry(name.to_string()).or_insert(0);
